@@ -1,4 +1,5 @@
 """C15 — sampling only ever appends correct rows."""
+import copy
 import os, json, random
 import common, fns, sweeps, labelled
 from common import quiet, canon
@@ -6,18 +7,19 @@ from common import quiet, canon
 PROP = 'C15'
 LEAN_MODULES = ['XyzProofs.Props.C15']
 THEOREMS = ['Sampler.c15_appends_n', 'Sampler.c15_row_correct', 'Sampler.c15_draws_allowed', 'Sampler.c15_disk_eq_mem',
-            'Sampler.c15_history', 'Sampler.c15_continue']
+            'Sampler.c15_history', 'Sampler.c15_continue', 'Sampler.c15_file_appends', 'Sampler.c15_history_shown',
+            'Sampler.c15_two_objects', 'Sampler.inv_step']
 ANCHORS = ['samplesDefersCleanup']
 RULE = ("histories of 1-6 runs on one data file: sample_combos(n) and sow_samples(n) -> grow -> reap (with batch sizes), n in "
         "1..7, combos overrides (lists and callables), runner constants, 1-2 outputs, engines pickle/csv, shuffle on/off, a "
-        "fresh Sampler object between runs; the draws are read off the returned rows and handed to the Lean model, which "
+        "fresh Sampler object between runs, or two live Sampler objects on the one file taking turns; the draws are read off the returned rows and handed to the Lean model, which "
         "predicts the whole table; the oracle checks: exactly n rows appended, earlier rows unchanged, arguments among the "
         "choices, outputs = f(arguments), file = memory, continuation by a new Sampler; non-trivial = >= 2 runs; distinct "
         "by full history")
 TRUSTED = ["np.random.choice / user callables produce the draws (environment); pandas concat / to_pickle / to_csv round trip (sampled)"]
 
 
-def nontrivial(c): return len([o for o in c['ops'] if o['op'] != 'new']) >= 2
+def nontrivial(c): return len([o for o in c['ops'] if o['op'] not in ('new', 'switch')]) >= 2
 
 
 def _case(rng):
@@ -33,15 +35,16 @@ def _case(rng):
         n = rng.randint(1, 7)
         if r < 0.45: ops.append({'op': 'sample', 'n': n, 'shuffle': rng.choice([0, 0, 5]), 'override': rng.random() < 0.3})
         elif r < 0.85: ops.append({'op': 'crop', 'n': n, 'bs': rng.randint(1, n + 1), 'shuffle': rng.choice([0, 0, 5])})
-        else: ops.append({'op': 'new'})
-    if not any(o['op'] != 'new' for o in ops): ops.append({'op': 'sample', 'n': 2, 'shuffle': 0, 'override': False})
+        elif r < 0.92: ops.append({'op': 'new'})
+        else: ops.append({'op': 'switch'})
+    if not any(o['op'] not in ('new', 'switch') for o in ops): ops.append({'op': 'sample', 'n': 2, 'shuffle': 0, 'override': False})
     return {'sweep': sw, 'desc': desc, 'ops': ops, 'engine': rng.choice(['pickle', 'csv']), 'npseed': rng.randrange(10 ** 6)}
 
 
 def cases(ctx):
     out = [_case(ctx.rng) for _ in range(300 if ctx.tier == 'quick' else 4000)]
     for c in out:
-        ctx.count('engine', c['engine']); ctx.count('runs', len([o for o in c['ops'] if o['op'] != 'new']))
+        ctx.count('engine', c['engine']); ctx.count('runs', len([o for o in c['ops'] if o['op'] not in ('new', 'switch')]))
         for o in c['ops']: ctx.count('op', o['op'])
     return out
 
@@ -67,10 +70,11 @@ def run_real(c, ctx):
     np.random.seed(c['npseed'])
     try:
         def mk():
-            r = xyz.Runner(f, var_names=desc['names'], fn_args=sw['case_args'], constants=desc['constants'] or None,
-                           resources=desc['resources'] or None, attrs=desc['attrs'] or None)
+            r = xyz.Runner(f, var_names=desc['names'], fn_args=sw['case_args'], constants=copy.deepcopy(desc['constants']) or None,
+                           resources=copy.deepcopy(desc['resources']) or None, attrs=copy.deepcopy(desc['attrs']) or None)
             return xyz.Sampler(r, data_name=data, default_combos={a: sw['values'][a] for a in sw['case_args']}, engine=c['engine'])
         smp = mk()
+        other = None
         obs = []
         for i, op in enumerate(c['ops']):
             o = {}
@@ -78,6 +82,8 @@ def run_real(c, ctx):
                 with quiet():
                     if op['op'] == 'new':
                         smp = mk()
+                    elif op['op'] == 'switch':
+                        smp, other = (other if other is not None else mk()), smp
                     elif op['op'] == 'sample':
                         kw = {}
                         if op.get('shuffle'): kw['shuffle'] = op['shuffle']
@@ -113,7 +119,7 @@ def model_request(c, obs):
     ops = []
     for op, o in zip(c['ops'], obs['obs']):
         if 'err' in o: return None
-        if op['op'] == 'new': ops.append({'op': 'new'})
+        if op['op'] in ('new', 'switch'): ops.append({'op': op['op']})
         else:
             try: ops.append({'op': 'sample', 'draws': [_ranks(r, c['sweep']) for r in o['last']]})
             except (ValueError, KeyError): return None
@@ -145,6 +151,10 @@ def oracle(c, obs):
         if 'err' in o: return f'run {j} {op} raised {o["err"]}: {o["msg"]}'
         if op['op'] == 'new':
             if o['mem'] is not None and _norm(o['mem']) != _norm(prev): return f'a new Sampler does not continue from the file (run {j})'
+            continue
+        if op['op'] == 'switch':
+            # the object taken up again may show what it last saw; the file must be untouched
+            if prev and (o['disk'] is None or _norm(o['disk']) != _norm(prev)): return f'switching Sampler objects changed the file (step {j})'
             continue
         n = op['n']
         new = o['last']
